@@ -31,6 +31,7 @@ type Target struct {
 	Srcs     []string          `json:"srcs,omitempty"`
 	Deps     []string          `json:"deps,omitempty"`
 	Tools    []string          `json:"tools,omitempty"` // genrule tools (labels); the op usetool reads them through $TOOLS
+	ToolName string            `json:"tool_name,omitempty"` // when set the tools are declared in dict form: tools = {ToolName: Tools} ($TOOLS_<NAME>, op usentool)
 	Outs     []string          `json:"outs,omitempty"`
 	OutDirs  []string          `json:"out_dirs,omitempty"`
 	Cmd      Cmd               `json:"cmd"`
@@ -184,6 +185,8 @@ func (c Cmd) Shell(label, logPath string) string {
 		return log + ` && (cd $PKG_DIR && for f in *.txt; do if [ -f $f ]; then cat $f; fi; done) > $OUTS`
 	case "usetool": // the outputs of the tools (through $TOOLS), then the sources
 		return log + ` && cat $TOOLS $SRCS /dev/null > $OUTS`
+	case "usentool": // the outputs of the NAMED tools (tools = {Arg: [...]}, through $TOOLS_<ARG>), then the sources
+		return log + ` && cat $TOOLS_` + strings.ToUpper(c.Arg) + ` $SRCS /dev/null > $OUTS`
 	case "toolnames": // the base NAMES of the outputs of the tools
 		return log + ` && for t in $TOOLS; do basename $t; done > $OUTS`
 	case "sleepconcat": // like concat but sleeps first (scheduling variety)
@@ -223,7 +226,9 @@ func (t *Target) Render(pkg, logPath string) string {
 			fmt.Fprintf(&b, "    output_dirs = %s,\n", pyList(t.OutDirs))
 		}
 		fmt.Fprintf(&b, "    cmd = %s,\n", pyStr(t.Cmd.Shell(label, logPath)))
-		if len(t.Tools) > 0 {
+		if len(t.Tools) > 0 && t.ToolName != "" {
+			fmt.Fprintf(&b, "    tools = {%s: %s},\n", pyStr(t.ToolName), pyList(t.Tools))
+		} else if len(t.Tools) > 0 {
 			fmt.Fprintf(&b, "    tools = %s,\n", pyList(t.Tools))
 		}
 		if len(t.Deps) > 0 {
